@@ -256,6 +256,9 @@ def cases(tier, seed):
     m = 400 if tier == "quick" else 4000
     for i in range(m):
         yield {"id": n + i, "fam": "instance", "seed": base + i}
+    k = 300 if tier == "quick" else 3000
+    for i in range(k):
+        yield {"id": n + m + i, "fam": "alias", "seed": base + i}
 
 
 # ---------------------------------------------------------------- worker side
@@ -379,6 +382,61 @@ def run_pair(case):
     return dict(base, verdict="held", observed=obs)
 
 
+
+ALIAS_LITERALS = [
+    ('{"tags": ["a"]}', {"tags": ["a"]}, '($v["tags"].append("zz"))'),
+    ('[[1, 2], "x"]', [[1, 2], "x"], "($v[0].append(9))"),
+    ('{"k": {"n": 1}}', {"k": {"n": 1}}, '($v["k"].update({"n": 2}))'),
+    ('[{"k": ["a"]}, 2]', [{"k": ["a"]}, 2], '($v[0]["k"].append(5))'),
+    ('{"o": [["q"]]}', {"o": [["q"]]}, '($v["o"][0].append("r"))'),
+    ('["s", ["t"]]', ["s", ["t"]], '($v[1].append("u"))'),
+]
+
+
+def run_alias(case):
+    """The pattern a match statement WRITES is a literal; another flow initialises a variable from the very same literal
+    text and later changes a nested part of ITS value in place. The match statement must still mean what it spells."""
+    from . import v2h
+
+    L = v2h.load()
+    rng = random.Random(case["seed"])
+    lit, val, mut = ALIAS_LITERALS[case["seed"] % len(ALIAS_LITERALS)]
+    tag = "q%d" % (case["seed"] % 7)  # a few distinct literal texts per shape
+    lit2 = lit.replace('"a"', '"a%s"' % tag).replace('"x"', '"x%s"' % tag).replace('"n": 1', '"n": 1, "t": "%s"' % tag).replace('"q"', '"q%s"' % tag).replace('"t"', '"t%s"' % tag)
+    val2 = eval(lit2.replace("true", "True"))  # our own literal table, not repo input
+    order = rng.choice(["mutate-first", "mutate-first", "event-first"])
+    src = (
+        "flow main\n  start mutator\n  match E(p=%s)\n  send Done()\n  match Never()\n\n"
+        "flow mutator\n  $v = %s\n  match Mut()\n  %s\n  send Mutated(v=$v)\n  match NeverM()\n" % (lit2, lit2, mut)
+    )
+    L["random"].reset(seed=case["seed"])
+    _C["evals"] = 0
+    _C["viol"] = []
+    try:
+        st = v2h.mk(src)
+    except v2h.LoaderReject as e:
+        return {"verdict": "inconclusive", "reason": "loader-reject", "detail": str(e)[:300] + " :: " + lit2}
+    trace = []
+    fired = None
+    seq = ["Mut", "E"] if order == "mutate-first" else ["E"]
+    import copy as _copy
+
+    for i, evn in enumerate(seq):
+        ev = {"type": evn}
+        if evn == "E":
+            ev["p"] = _copy.deepcopy(val2)
+        out = v2h.run(st, ev)
+        trace.append((evn, v2h.types(out)))
+        if evn == "E" and "Done" in v2h.types(out):
+            fired = i
+    res = {"key": repr((lit2, order)), "nontrivial": order == "mutate-first", "scenario": "alias",
+           "sample": {"program": src, "order": order, "trace": trace}, "observed": {"alias_scenarios": 1, "alias_mutated_before_event": int(order == "mutate-first")}}
+    if order == "mutate-first" and not any("Mutated" in t for _e, t in trace):
+        return dict(res, verdict="inconclusive", reason="mutation-not-observed")
+    if fired is None:
+        return dict(res, verdict="violated", witness={"program": src, "trace": trace, "expected": "E(p=%s) advances the match that spells exactly this value" % lit2, "marker": None})
+    return dict(res, verdict="held")
+
 INSTANCE_SCENARIOS = ("action", "flow", "action_started", "flow_named_param", "uid_param", "uid_member", "uid_event_ref", "uid_var")
 # the instance is named by a written `action_uid=` parameter instead of a `$ref.Finished()` reference
 UID_FORMS = {
@@ -472,10 +530,14 @@ def run_instance(case):
 def run_case(case):
     if case["fam"] == "pair":
         return run_pair(case)
+    if case["fam"] == "alias":
+        return run_alias(case)
     return run_instance(case)
 
 
 def classify(r):
+    if r.get("scenario") == "alias":
+        return "pattern-literal-aliased-with-a-mutated-value"
     if r.get("scenario"):
         return "instance-reference:" + r["scenario"]
     if r.get("set_bigger"):
